@@ -55,7 +55,7 @@ RULE = (
     'test results each (by-label requests naming an unused label give a failed evaluation); x '
     'verbosity SILENT..DEVELOPMENT x representer Table / FullTable / Full (and Plot / Empty for the '
     'one-directional clause). Oracle: docutils doctree of Rst.format_result; mark = hl inline or '
-    'the word KO. Chain: 1-3 initial tables (scalar or 1-D columns of float / int / str / bool, '
+    'the word KO. Chain: 1-3 initial tables (2-4 scalar or 1-D columns of float / int / str / bool, '
     'explicit or default highlights) and 1-6 operations slice (any step) / integer index / copy / '
     'join (method or function), every produced table rendered with RstTable and compared with a '
     'list-of-rows model. non-trivial = a false result with a mixed pattern (some bins / keys / '
@@ -83,10 +83,14 @@ ASSUMPTIONS = [
     'in detailed tables highlighted rows must be exactly the failing bins (cells: bin labels, '
     'values, errors); rows without highlight must show some passing bin; which cell of a failing '
     'row carries the highlight is not asserted',
-    'chains: selections retaining no row are not rendered (a reST table needs a body row); '
-    'slicing is only applied to tables with array columns (documented TypeError otherwise)',
+    'chains: tables have 2-4 columns (a reST simple table needs two columns) and at least one '
+    'row; selections retaining no row are not rendered (a reST table needs a body row); slicing '
+    'is only applied to tables with array columns (documented TypeError otherwise); t.join(a, b) '
+    'is the succession of binary joins',
+    'metadata cases carry at least one key; statistics cases observe at least one task / result '
+    '(the verdict of a summary that observed nothing is not documented, cf. C18)',
 ]
-BUDGET = {'quick': {'cases': 6400, 'shards': 16, 'seconds': 150, 'shrink_s': 40},
+BUDGET = {'quick': {'cases': 6400, 'shards': 16, 'seconds': 150, 'shrink_s': 20},
           'thorough': {'cases': 160000, 'shards': 16, 'seconds': 840, 'shrink_s': 60}}
 FLOORS = {'nontrivial': 0.12, 'family=rendering': 0.6, 'family=chain': 0.08,
           'result=false': 0.3, 'result=true': 0.12, 'pattern=mixed': 0.15, 'has-table': 0.25,
@@ -99,7 +103,7 @@ FLOORS = {'nontrivial': 0.12, 'family=rendering': 0.6, 'family=chain': 0.08,
           'verb=SILENT': 0.05, 'verb=SUMMARY': 0.08, 'verb=DEFAULT': 0.07,
           'verb=INTERMEDIATE': 0.05, 'verb=FULL_DETAILS': 0.045, 'verb=DEVELOPMENT': 0.03,
           'detail-table-checked': 0.07, 'detail-partial-rows': 0.01, 'nested-part-rendered': 0.02,
-          'stats-no-ok-item': 0.02,
+          'stats-no-ok-item': 0.02, 'bylabels-no-group': 0.001,
           'chain-slice-rendered': 0.04, 'chain-join': 0.04, 'chain-index': 0.015, 'chain-copy': 0.02,
           'chain-scalar-table': 0.025, 'chain-default-hl': 0.03, 'chain-hl-nonuniform': 0.05}
 
@@ -210,6 +214,7 @@ def _stats_case(draw):
     kind = draw(st.sampled_from(['stats_tasks', 'stats_tests', 'stats_bylabels']))
     all_good = draw(st.integers(0, 3)) == 0
     none_good = draw(st.integers(0, 5)) == 0
+    sparse = draw(st.integers(0, 2)) == 0        # labels mostly absent: groups get rare
     ntasks = draw(st.integers(1, 6))
     tasks = []
     for idx in range(ntasks):
@@ -226,7 +231,7 @@ def _stats_case(draw):
             for _ in range(nres):
                 okay = True if all_good else False if none_good else draw(st.booleans())
                 labels = {lab: draw(st.sampled_from(LABEL_VALUES)) for lab in LABELS
-                          if draw(st.integers(0, 4)) != 0}
+                          if draw(st.integers(0, 1 if sparse else 4)) != 0}
                 results.append({'ok': okay, 'name': draw(st.sampled_from(NAMES)),
                                 'labels': labels})
         tasks.append({'name': f'task{idx}', 'status': status, 'results': results})
@@ -582,7 +587,7 @@ def _check_detail(case, result, table, out, kind):
         out.labels.append('detail-partial-rows')
     if len(got_hl) != len(exp_fail):
         out.failures.append(Failure(
-            'detail_rows', f'C12/detail_rows/{feat}/hl-row-count',
+            'detail_rows', f'C12/detail_rows/{feat}/highlighted-rows',
             f'{len(got_hl)} highlighted rows for {len(exp_fail)} failing bins '
             f'(table of {len(table["rows"])} rows, {len(model)} bins)'))
         return
@@ -591,8 +596,8 @@ def _check_detail(case, result, table, out, kind):
             nbin = len(_bin_labels(case)[0])
             what = 'bins' if got[:nbin] != exp[:nbin] else 'values'
             out.failures.append(Failure(
-                'detail_rows', f'C12/detail_rows/{feat}/hl-row-{what}',
-                f'highlighted row {ridx}: {got} expected {exp}'))
+                'detail_rows', f'C12/detail_rows/{feat}/highlighted-rows',
+                f'highlighted row {ridx} ({what}): {got} expected {exp}'))
             return
     for got in got_plain:
         if got not in exp_pass:
@@ -659,6 +664,9 @@ def _run_rendering(case, out):
     sfeat = _stats_feature(case, kind) if not failed_eval else ''
     if sfeat == 'no-ok-item':
         out.labels.append('stats-no-ok-item')
+    if kind == 'stats_bylabels' and not failed_eval and not result.classify:
+        sfeat = 'no-group'               # every test lacks one of the requested labels
+        out.labels.append('bylabels-no-group')
 
     # ---- render
     representation = rpr.Representation(REPS[rep](), Verbosity[verb])
@@ -666,7 +674,7 @@ def _run_rendering(case, out):
         text = '\n'.join(Rst(representation).format_result(result))
     except Exception as exc:      # the property promises a rendering for every such result
         out.failures.append(Failure(
-            'render_raises', _raise_signature(exc, sigkind),
+            'render_raises', _raise_signature(exc, sigkind + ('/no-group' if sfeat == 'no-group' else '')),
             f'{type(exc).__name__}: {exc}'[:300]
             + f' at {_where(exc)} [{kind}, shape {case.get("shape")}, {rep}, {verb}]'))
         return
@@ -935,13 +943,31 @@ def run_case(case):
     return out
 
 
-def _default_hl_str_first(case, failure):
-    return (case.get('kind') == 'chain' and case['coltypes'][0] == 's'
-            and any(spec['hl'] is None for spec in case['tables']))
+def _is_chain(case):
+    return case.get('kind') == 'chain'
 
 
+# Predicates on the case for the defects found when this check was written (all of them have a
+# proposed repair under proposed_fixes/; the predicates allow recording one as a known finding).
 KNOWN_PREDICATES = {
-    'default_highlights_with_text_first_column': _default_hl_str_first,
+    'bonferroni_on_non_1d_datasets':
+        lambda case, failure: case.get('kind') == 'bonferroni' and len(case['shape']) != 1,
+    'statistics_of_tasks_or_tests':
+        lambda case, failure: case.get('kind') in ('stats_tasks', 'stats_tests'),
+    'bylabels_without_any_group':
+        lambda case, failure: case.get('kind') == 'stats_bylabels',
+    'full_representer_unit_dimension_with_bins':
+        lambda case, failure: (case.get('kind') in DS_KINDS and case['rep'] in ('full', 'plot')
+                               and bool(case['bins']) and 1 in case['shape']),
+    'chain_with_slice_or_index':
+        lambda case, failure: _is_chain(case) and any(o['op'] in ('slice', 'index')
+                                                      for o in case['ops']),
+    'chain_with_negative_step_slice':
+        lambda case, failure: _is_chain(case) and any(
+            o['op'] == 'slice' and (o['step'] or 1) < 0 for o in case['ops']),
+    'default_highlights_with_text_first_column':
+        lambda case, failure: (_is_chain(case) and case['coltypes'][0] == 's'
+                               and any(spec['hl'] is None for spec in case['tables'])),
 }
 
 MANIFEST = {
